@@ -593,3 +593,20 @@ func init() {
 		return s
 	}
 }
+
+// environment touch points: their answers are arbitrary (they are what C14 quantifies over)
+func init() {
+	models["io/ioutil.TempDir"] = func(it *Interp, a []Val) Val {
+		fails := Var(it.p.freshName("env.TempDir.fails"), SBool)
+		it.p.sources = append(it.p.sources, Source{Kind: "bool", Tag: "env:ioutil.TempDir fails", Terms: []*Term{fails}})
+		it.p.envReads = append(it.p.envReads, "ioutil.TempDir")
+		if it.p.branch(fails) {
+			return Tuple{strLit(""), it.newErr(IfaceV{}, "TempDir failed")}
+		}
+		dir := Var(it.p.freshName("env.TempDir"), SStr)
+		it.p.sources = append(it.p.sources, Source{Kind: "str", Tag: "env:ioutil.TempDir", Terms: []*Term{dir}})
+		return Tuple{&StrV{T: dir}, IfaceV{}}
+	}
+	models["os.MkdirTemp"] = models["io/ioutil.TempDir"]
+	models["os.RemoveAll"] = func(it *Interp, a []Val) Val { return IfaceV{} }
+}
